@@ -181,7 +181,7 @@ pub(crate) async fn git_cmd_diff_changes(
     begin: Option<&str>,
     end: Option<&str>,
 ) -> Result<Vec<Change>, MonorailError> {
-    let mut args = vec!["diff", "--name-only", "--find-renames"];
+    let mut args = vec!["diff", "--name-only", "--no-renames"];
     if let Some(begin) = begin {
         args.push(begin);
     }
